@@ -135,10 +135,34 @@ Definition radical_line (a b : Circ) : Ln :=
            (px (cc a) * px (cc a) + py (cc a) * py (cc a) - px (cc b) * px (cc b) - py (cc b) * py (cc b)
             - cr a * cr a + cr b * cr b).
 
-(** after the swap: [cr a >= cr b] (or unordered).  Crossing branch as repaired in commit bc281aa:
-    the two points are computed directly (foot [mid] of the common chord on the centre line at
-    distance [x] from [a.c], half chord [h]) instead of through [intersect_cl] on the radical line *)
+(** after the swap: [cr a >= cr b] (or unordered).  Crossing branch: the two points are computed
+    directly (commit bc281aa; before that through [intersect_cl] on the radical line) from the foot
+    [mid] of the common chord on the centre line and the half chord [h], and both are measured from
+    the SMALLER circle [b] ([y] = signed distance of the chord from [b.c] towards [a.c]); the version
+    of bc281aa measured them from the larger circle, see [intersect_cc_ordered_big] *)
 Definition intersect_cc_ordered (a b : Circ) : CCRes :=
+  let d := dist (cc a) (cc b) in
+  if (d <? EPS) && (cr a <? cr b + EPS) then CCSame
+  else if d <? cr a - cr b - EPS then CCNone
+  else if d <? cr a - cr b + EPS then
+    CCTouchInside (padd (cc a) (pscale (pdiv (psub (cc b) (cc a)) d) (cr a)))
+  else if d <? cr a + cr b - EPS then
+    let y := (d * d + cr b * cr b - cr a * cr a) / (c2 * d) in
+    let h := fsqrt o (fmax o (cr b * cr b - y * y) c0) in
+    let dir := pdiv (psub (cc b) (cc a)) d in
+    let mid := psub (cc b) (pscale dir y) in
+    let par := mkPt (- py dir) (px dir) in
+    CCIntersect (padd mid (pscale par h)) (psub mid (pscale par h))
+  else if d <? cr a + cr b + EPS then
+    CCTouchOutside (padd (cc a) (pscale (pdiv (psub (cc b) (cc a)) d) (cr a)))
+  else CCNone.
+
+(** the crossing branch between commit bc281aa and the repair described above: chord foot at distance
+    [x] from the LARGER circle's centre and [h = sqrt (a.r^2 - x^2)].  Exact in real arithmetic
+    (the points coincide with those of [intersect_cc_ordered]), but in binary64 the square root
+    cancels at the scale of [a.r^2]: for a.r = 1000, b.r = 0.001 the points are 1.2e-7 off the small
+    circle ([c10_cc_big_ratio_refuted]).  Kept as a named old variant; nothing else uses it. *)
+Definition intersect_cc_ordered_big (a b : Circ) : CCRes :=
   let d := dist (cc a) (cc b) in
   if (d <? EPS) && (cr a <? cr b + EPS) then CCSame
   else if d <? cr a - cr b - EPS then CCNone
@@ -154,8 +178,10 @@ Definition intersect_cc_ordered (a b : Circ) : CCRes :=
   else if d <? cr a + cr b + EPS then
     CCTouchOutside (padd (cc a) (pscale (pdiv (psub (cc b) (cc a)) d) (cr a)))
   else CCNone.
+Definition intersect_cc_big (a b : Circ) : CCRes :=
+  if cr a <? cr b then intersect_cc_ordered_big b a else intersect_cc_ordered_big a b.
 
-(** the crossing branch BEFORE that repair: the radical line was built through [Line::new] and
+(** the crossing branch BEFORE commit bc281aa: the radical line was built through [Line::new] and
     handed to [intersect_cl], whose own absolute +-EPS test is about [cr a / cr b] times more
     sensitive than the test on [d]; near a tangency of very unequal circles it answered [Touch]
     (reported as [TouchOutside], even at an inner contact) with a point up to ~EPS * cr a / cr b
